@@ -5,6 +5,7 @@ failure mode, every buffer size are instances.
 -/
 import Sqroot.Proofs.Print
 import Sqroot.Proofs.FprintFault
+import Sqroot.Proofs.FprintFaultRun
 namespace Sqroot.Props.C12
 open Sqroot.Model Sqroot.Proofs
 
@@ -83,5 +84,21 @@ theorem no_request_after_the_fault (c : MemoCfg) (m : Memo) (pr : Printer) (v : 
     (herr : pr.raw.err = true) (res : Memo × Printer) (h : rangesFault3 c m pr v rs = some (.ok res)) :
     res = (m, pr) :=
   ranges_after_error c m pr v rs herr res h
+
+/-- the early-exit run WRITES what the plain run writes (same accepted bytes, count, error flag,
+digits pulled, writer calls): every theorem above about `printRun` under an arbitrary writer is a
+theorem about `fprintFault3`, the function the correspondence check runs against the
+implementation's faulted `Fprint` -/
+theorem early_exit_run_is_the_plain_run (c : MemoCfg) (m : Memo) (sink : Sink) (s : PSettings) (v : Val3)
+    (ranges : List PRange) (r : PrintResult) (m' : Memo) (r0 : PrintResult)
+    (h : fprintFault3 c m sink s v ranges = some (.ok (r, m')))
+    (h0 : fprint3 c m sink s v ranges = some (.ok r0)) : r = r0 :=
+  fprintFault3_result_eq c m sink s v ranges r m' r0 h h0
+
+theorem early_exit_fwrite_is_the_plain_fwrite (c : MemoCfg) (m : Memo) (sink : Sink) (s : PSettings) (v : Val3)
+    (size : Nat) (r : PrintResult) (m' : Memo) (r0 : PrintResult)
+    (h : fwriteFault3 c m sink s v size = some (.ok (r, m')))
+    (h0 : fwrite3 c m sink s v size = some (.ok r0)) : r = r0 :=
+  fwriteFault3_result_eq c m sink s v size r m' r0 h h0
 
 end Sqroot.Props.C12
